@@ -3744,7 +3744,10 @@ impl Interpreter {
 
         // Try second method
         let second_key = PropertyKey::String(self.intern(second_method));
-        if let Some(JsValue::Object(method)) = obj.borrow().get_property(&second_key)
+        // Bind the lookup first: a borrow held in the `if let` scrutinee would still be alive while
+        // the method runs, and a method that writes to its own object would panic the process.
+        let second_prop = obj.borrow().get_property(&second_key);
+        if let Some(JsValue::Object(method)) = second_prop
             && matches!(method.borrow().exotic, ExoticObject::Function(_))
         {
             let result = self.call_function(JsValue::Object(method), value.clone(), &[])?;
